@@ -14,15 +14,22 @@ Definition g_lstep (l : location) (o : lop) : option location :=
   | LAdvSheet => g_advance_sheet l
   end.
 
+(* robust against harmless rewrites of the source (order of the asserts, `a + b` written `b + a`, `x >= 1` for `x > 0`,
+   the order of independent assignments): the guards are compared by their meaning, the counters by arithmetic *)
+Ltac same_location :=
+  cbn [andb];
+  repeat match goal with
+         | |- context [Nat.ltb ?a ?b] => destruct (Nat.ltb_spec a b)
+         | |- context [Nat.leb ?a ?b] => destruct (Nat.leb_spec a b)
+         end;
+  cbn [andb]; try lia; try reflexivity; try (f_equal; f_equal; lia).
 Lemma lstep_generated l o : lstep l o = g_lstep l o.
 Proof.
+  destruct l as [p ln col cl sh hcol hcell hsheet].
   destruct o as [k|k|k|k|]; cbn [lstep g_lstep];
-    unfold g_advance_column, g_advance_cell, g_set_cell, g_advance_line, g_advance_sheet; cbn [Nat.leb andb].
-  - reflexivity.
-  - reflexivity.
-  - reflexivity.
-  - reflexivity.
-  - rewrite Nat.add_1_r. reflexivity.
+    unfold g_advance_column, g_advance_cell, g_set_cell, g_advance_line, g_advance_sheet;
+    cbn [lo_path lo_line lo_column lo_cell lo_sheet lo_has_column lo_has_cell lo_has_sheet];
+    destruct hcol, hcell, hsheet; same_location.
 Qed.
 
 Lemma defaults_generated : g_advance_column_default_amount = 1%nat /\ g_advance_cell_default_amount = 1%nat /\ g_advance_line_default_amount = 1%nat.
@@ -33,7 +40,7 @@ Proof. unfold num, dec_of. f_equal. lia. Qed.
 
 Lemma loc_text_generated l : loc_text l = g_str l.
 Proof.
-  unfold loc_text, g_str. cbv zeta. rewrite !num_dec.
+  unfold loc_text, g_str. cbv zeta. rewrite !num_dec. rewrite ?Nat.add_1_r. cbn [Nat.add].
   unfold SP, LPAR, RPAR, BANG, SEMI, CH_R, CH_C.
   destruct (lo_has_cell l), (lo_has_sheet l), (lo_has_column l); cbn [app];
     repeat (rewrite <- app_assoc; cbn [app]); reflexivity.
